@@ -546,6 +546,40 @@ impl Property for C20 {
             }
         }
         ctx.subspace("comment pool x scalar kinds x 4 positions x option family x {plain, +SpaceAfter}; block-string pool x {LitStr, FoldStr} x 4 positions x option family x 3 wrapper stacks", total, true);
+        // (b2) flow wrappers nested inside flow wrappers, followed by a block-style collection whose
+        // items only have a block form: a hint that is not consumed where it belongs leaks to the
+        // next collection (found by the thorough tier, fixed in 1f8cc1e; kept as a fixed family
+        // because random decoration reaches it only rarely)
+        {
+            let mut idx2 = 0u64;
+            for depth in 2..=4usize {
+                for y in 0..4 {
+                    for o in fam.iter() {
+                        idx2 += 1;
+                        if !ctx.mine(idx2) {
+                            continue;
+                        }
+                        // first element: `depth` nested sequences around an integer, every level FlowSeq
+                        let mut xt = Ty::Int;
+                        let mut xv = DV::Int(1);
+                        for _ in 0..depth {
+                            xt = Ty::Seq(Box::new(xt));
+                            xv = DV::Seq(vec![xv]);
+                        }
+                        let (yt, yv) = match y {
+                            0 => (Ty::Seq(Box::new(Ty::Enum(vec![VK::Unit, VK::St(vec![Ty::Int])]))), DV::Seq(vec![DV::Var(1, vec![DV::Int(7)])])),
+                            1 => (Ty::Seq(Box::new(Ty::Enum(vec![VK::New(Box::new(Ty::Seq(Box::new(Ty::Int))))]))), DV::Seq(vec![DV::Var(0, vec![DV::Seq(vec![DV::Int(7), DV::Int(8)])])])),
+                            2 => (Ty::Map(Box::new(Ty::Str), Box::new(Ty::Enum(vec![VK::Tup(vec![Ty::Int, Ty::Int])]))), DV::Map(vec![(DV::Str("ab".into()), DV::Var(0, vec![DV::Int(1), DV::Int(2)]))])),
+                            _ => (Ty::Seq(Box::new(Ty::Struct(vec![Ty::Enum(vec![VK::St(vec![Ty::Str])])], false))), DV::Seq(vec![DV::Struct(vec![DV::Var(0, vec![DV::Str("ab".into())])])])),
+                        };
+                        let decor: Vec<(usize, Vec<W>)> = (1..=depth).map(|i| (i, vec![W::FlowSeq])).collect();
+                        let c = Case { ty: Ty::Tuple(vec![xt, yt]), val: DV::Seq(vec![xv, yv]), decor, opts: o.clone() };
+                        ctx.case("nested-flow-then-block", &c, true);
+                    }
+                }
+            }
+            ctx.subspace("FlowSeq nested 2-4 deep, followed by 4 block-only collections, x option family", idx2, true);
+        }
         // (c) random decorations of random trees
         let strat = (ds::arb_typed(4), prop::collection::vec(any::<u16>(), 8..48), prop::sample::select(vec![15u16, 35, 70]), 0u32..(1 << 14)).prop_map(|((ty, val), script, density, ob)| {
             let decor = decorate(&ty, &val, &script, density);
